@@ -1,7 +1,7 @@
 (* C08 - rendered messages respect the size limit; truncation and padding are exact.
    Model: Model/MessageM.v (to_wire = Message.to_wire with Renderer).  Proofs: Proofs/MessageSize.v *)
 From DV Require Import Base.Prelude Model.NameM Model.MessageM.
-From DV Require Import Proofs.MessageRender Proofs.MessageSize.
+From DV Require Import Proofs.MessageRender Proofs.MessageSize Proofs.MessagePad.
 Open Scope Z_scope.
 
 (* a rendered message never exceeds its effective limit (512 <= limit <= 65535 after the clamp) *)
@@ -35,6 +35,15 @@ Theorem no_offset_beyond_end : forall m origin max_size request_payload prefer_t
 Proof. exact table_inside_lemma. Qed.
 Print Assumptions no_offset_beyond_end.
 
+(* when padding is requested (and the message has an OPT record to carry it) the final length,
+   TSIG included, is a multiple of the block size - for every message, origin, limit and key name
+   (the repaired code writes the TSIG owner uncompressed after padding; commit 5e0f3f6) *)
+Theorem pad_multiple : forall m origin max_size request_payload prefer_truncation pad o w,
+  0 < pad -> mopt m = Some o ->
+  to_wire m origin max_size request_payload prefer_truncation pad = Ok w -> zlen w mod pad = 0.
+Proof. exact pad_multiple_lemma. Qed.
+Print Assumptions pad_multiple.
+
 (* ---- non-vacuity: a message that is truncated at limit 512, and one rolled-back record set ---- *)
 Definition ex_rr (k : Z) : rrset :=
   mkRR [[119; 119; 119]; [101; 120]; []] 1 16 0 None 300 [[PB (200 :: repeat k 200)]].
@@ -53,4 +62,14 @@ Example rollback_happens :
   exists r', add_rrset None 1 (ex_rr 1)
                        (mkRst (repeat 0 400) [] 0 0 0 0 0 0 512 0 false) = Ok (true, r')
              /\ zlen (out r') = 400.
+Proof. eexists. vm_compute. split; reflexivity. Qed.
+
+(* the configuration that used to give 245: pad 128, TSIG key name sharing a suffix with the question *)
+Definition ex_pad : msg :=
+  mkMsg 1 256 [mkRR [[119; 119; 119]; [101; 120]; []] 1 1 0 None 0 []] [] [] []
+        (Some (mkOpt 0 1232 []))
+        (Some ([[107; 101; 121]; [101; 120]; []],
+               [PU [[104; 109; 97; 99]; []]; PB (repeat 0 8); PB (0 :: 32 :: repeat 7 32); PB [0; 1]; PB [0; 0]; PB [0; 0]])).
+Example padded_with_tsig :
+  exists w, to_wire ex_pad None 0 0 false 128 = Ok w /\ zlen w = 256.
 Proof. eexists. vm_compute. split; reflexivity. Qed.
